@@ -1,5 +1,5 @@
 #!/usr/bin/env bash
-# usage: tools/fuzz_stage.sh <C10|C11> <seed>
+# usage: tools/fuzz_stage.sh <C10|C11> <seed> [--build-only]
 # Coverage-guided stage of the thorough tiers of C10 and C11: builds the libFuzzer target (cargo-fuzz, nightly, offline),
 # runs a fixed-work campaign (jobs x runs, seed = VERIF_SEED) from an empty corpus plus the repository examples' decoding,
 # and reports findings of the given property.  Exit: 0 nothing found / stage skipped, 1 finding (VIOLATION line printed).
@@ -11,8 +11,9 @@ FZ="$ROOT/fuzz"; RUN="$FZ/corpus_run/$ID"; BIN="$FZ/target/x86_64-unknown-linux-
 JOBS="${VERIF_FUZZ_JOBS:-12}"; RUNS="${VERIF_FUZZ_RUNS:-8000}"
 cp "$ROOT/harness/Cargo.lock" "$FZ/Cargo.lock" 2>/dev/null
 if ! (cd "$FZ" && RUSTFLAGS="--cfg reinterpretcat_vrp_verif" CARGO_NET_OFFLINE=true cargo +nightly fuzz build --fuzz-dir "$FZ" -s none pragmatic_values >"$FZ/build.log" 2>&1); then
-  tail -n 5 "$FZ/build.log"; echo "NOTE fuzz stage skipped: target did not build (not a violation)"; exit 0
+  tail -n 5 "$FZ/build.log"; echo "NOTE fuzz stage skipped: target did not build (not a violation)"; [ "${3:-}" = "--build-only" ] && exit 3; exit 0
 fi
+[ "${3:-}" = "--build-only" ] && exit 0
 rm -rf "$RUN"; mkdir -p "$RUN/corpus" "$RUN/artifacts" "$ROOT/replays"
 [ "$SEED" = "0" ] && SEED=1
 (cd "$RUN" && "$BIN" corpus -jobs="$JOBS" -workers="$JOBS" -runs="$RUNS" -seed="$SEED" -max_len=64 -len_control=0 -artifact_prefix="$RUN/artifacts/" >"$RUN/campaign.log" 2>&1)
